@@ -40,6 +40,8 @@ def c05(tier, seed):
 
 
 ENGINES = {
+    "traitprobe": ({"C12"}, "run-time reflection of trait facts (Send/Sync/Copy/Clone conditions, type-level length relations)"),
+    "corpus": ({"C12"}, "331 generated accept/reject programs judged by cargo check (separate crate /verif/corpus)"),
     "constprobe": ({"C18"}, "generated const items: rustc's const evaluator as UB monitor + run-time agreement (separate crate /verif/constprobe)"),
     "serdeq": ({"C17"}, "serde: recording serializer, format references, scripted deserializer grid"),
     "arrmac": ({"C20"}, "generated arr!/box_arr! invocations with logging element expressions"),
@@ -287,6 +289,33 @@ def c17(tier, seed):
 
 
 SPECS = {
+    "C12": dict(
+        engine="corpus",
+        runs=lambda tier, seed: [Run("traitprobe", "debug", [], shards=1)],
+        also_custom=custom.c12_corpus,
+        also_families=("corpus",),
+        technique="compiler-verdict observation: rustc's accept/reject verdict (with error-code classes) on a generated corpus of 331 minimal programs in accept/reject pairs, plus run-time reflection of ~1100 trait facts decided by the real trait solver",
+        level="other",
+        level_text=("(a) traitprobe: the inherent-const-beats-trait-const idiom makes the real trait solver report, in a compiled binary, whether "
+                    "concrete types satisfy bounds: GenericArray / GenericArrayIter / Box / & are Send, Sync, Copy, Clone exactly when the element "
+                    "type is (11 element types incl. Rc, Cell, raw pointers, MutexGuard, a non-Clone type; N in {0,1,2,3,8,16,1024}); Shorten/Remove "
+                    "absent on U0; Split<K> absent for K>N in all three receiver forms; Lengthen/Shorten/Concat/Remove/Split/Flatten/Unflatten "
+                    "outputs have the arithmetic length and not its neighbour; Const<K> maps to U<K> only; ==/< only between equal lengths; native "
+                    "array, &[T;K], AsRef/AsMut and tuple (1..=12) conversions exist only for the matching length. (b) corpus: 152 accept and 179 "
+                    "reject programs generated from templates, each reject one token away from an accepted twin, covering zip/compare across "
+                    "lengths, split past the end, pop/remove on empty, every inferred result length and its neighbours, every conversion with a "
+                    "wrong K, Send/Sync/Copy/Clone, and for every API that returns a reference derived from a raw pointer an outlives-the-source "
+                    "program, a lifetime-widening function and (for &mut) an aliasing program. rustc must accept every accept program and reject "
+                    "every reject program with an error of the expected class (length/bound, move, borrow/lifetime)."),
+        level_note="Trusted: rustc's type and borrow checker as the observed system; error classes (not single codes) so that a different-but-equivalent diagnostic is not an alarm. Programs not in the corpus are out of reach; the corpus is generated systematically from the list of public signatures.",
+        min_cases=1000,
+        must_count=["corpus.accept_programs", "corpus.reject_programs"],
+        exhaustive={"quick": True, "thorough": True},
+        rule="one case = one trait fact (type, bound) or one corpus program; non-trivial = a reject program or any trait fact",
+        explanation=("deciding step: the compiler's verdict on generated programs built against the working tree (cargo check --keep-going, per-target "
+                     "diagnostics) and the trait solver's answers reflected at run time"),
+        assumptions=["corpus families listed in gen/corpus_gen.py", "unflatten over non-divisible lengths is outside the statement (documented domain) and not in the corpus"],
+    ),
     "C18": dict(
         engine="constprobe",
         custom=custom.c18_custom,
